@@ -34,6 +34,7 @@ TRIGGER_SIGS = {
     'unroll-exit': 'C31:unroll:exit-or-cycle:candidate-does-not-compile:EXIT-or-CYCLE-outside-loop',
     'unroll-label': 'C31:unroll:do-label:candidate-does-not-compile:Duplicate-statement-label-N-at-(N)-and-(N)',
     'fusion-diffvar-case': 'C31:fusion:diffvar+idcase-nonlower:wrong-result',
+    'fission-empty-branch': 'C31:fission:empty-branch:wrong-result',
     'block-local': 'C31:block:local-array:wrong-result',
     'block-lo': 'C31:block:lo-not-1:wrong-result',
     'block-out-partial': 'C31:block:conditional-write+intent-out-array:wrong-result',
@@ -219,13 +220,16 @@ def features(case, ri):
         f.add('idcase-nonlower')
     # generator-side structural tags that cannot be derived cheaply from the model
     for t in case['xf']['regions'][ri].get('tags', []):
-        if t in ('counter-in-bounds', 'diffvar', 'between-stmt', 'temp-crosses', 'pragma-in-if', 'triangular', 'inner-pragma',
+        if t in ('counter-in-bounds', 'diffvar', 'diffvar-permuted', 'between-stmt', 'temp-crosses', 'pragma-in-if', 'triangular', 'inner-pragma',
                  'local-array', 'intent-out-array', 'intent-in-array', 'lo-not-1', 'ranges-sub', 'ranges-sub+range'):
             f.add(t)
     if kind == 'interchange' and case['xf']['opts'].get('project_bounds'):
         f.add('project-bounds')
     if kind == 'fission' and not case['xf']['opts'].get('promote', True):
         f.add('promote-off')
+    if kind == 'fission' and gen_loops.empty_branches(_kbody(case)):
+        # anywhere in the routine: the fission transformer rebuilds the whole routine body
+        f.add('empty-branch')
     if case['xf']['opts'].get('via') == 'transformation':
         f.add('via-transformation')
     return f
@@ -335,7 +339,7 @@ NEUTRALISERS = [
 ]
 
 
-PRIMARY = {'exit-or-cycle', 'do-label', 'do-named', 'diffvar', 'idcase-nonlower', 'local-array', 'lo-not-1', 'same-array-distinct-subscripts'}
+PRIMARY = {'empty-branch', 'exit-or-cycle', 'do-label', 'do-named', 'diffvar', 'idcase-nonlower', 'local-array', 'lo-not-1', 'same-array-distinct-subscripts'}
 
 
 def neutralise(case, ri, tag):
@@ -348,6 +352,10 @@ def neutralise(case, ri, tag):
     if tag == 'via-transformation':
         c = copy.deepcopy(case)
         c['xf']['opts']['via'] = 'function'
+        return c
+    if tag == 'empty-branch':
+        c = copy.deepcopy(case)
+        gen_loops.fill_empty_branches(_kbody(c))      # statement count of the top level is unchanged
         return c
     if tag == 'diffvar':
         c = copy.deepcopy(case)
